@@ -273,7 +273,7 @@ def solo(pid, c, total, chk, dr, n):
 def run(pid, tier, seed, total, chk, dr):
     r = random.Random(seed * 7919 + 17)
     quick = tier == "quick"
-    n_random = 400 if quick else 5000
+    n_random = 400 if quick else 15000
     # ---- batch 1: const-eval class (index collisions / indices above 255), faulty and valid mixed
     cases = []
     n = 0
